@@ -220,7 +220,13 @@ type realStore interface {
 
 var bg = context.Background()
 
-type rwStore struct{ bs *blockstore.ReadWrite }
+// f: the file when the store was opened with OpenReadWriteFile (the caller owns and closes it)
+type rwStore struct {
+	bs *blockstore.ReadWrite
+	f  *os.File
+}
+
+var openFlip atomic.Uint64
 
 func mkBlock(b *ABlock) blocks.Block {
 	blk, err := blocks.NewBlockWithCid(b.Data, b.Cid)
@@ -240,7 +246,12 @@ func (s *rwStore) PutMany(bs []*ABlock) error {
 func (s *rwStore) Finalize() error   { return s.bs.Finalize() }
 func (s *rwStore) FinalizeRO() error { return s.bs.FinalizeReadOnly() }
 func (s *rwStore) Close() error      { return s.bs.Close() }
-func (s *rwStore) Discard()          { s.bs.Discard() }
+func (s *rwStore) Discard() {
+	s.bs.Discard()
+	if s.f != nil {
+		s.f.Close()
+	}
+}
 func (s *rwStore) Has(c cid.Cid) (bool, error) {
 	return s.bs.Has(bg, c)
 }
@@ -329,11 +340,25 @@ func isNotFound(err error) bool {
 func openReal(kind, path string, roots []string, o sOpts, resume bool) (realStore, error) {
 	switch kind {
 	case "blockstore":
+		if openFlip.Add(1)%2 == 0 {
+			// every other store is opened on a file the caller keeps (OpenReadWriteFile): same behaviour, the
+			// file stays open across Finalize / Discard / Close
+			f, err := os.OpenFile(path, os.O_RDWR|os.O_CREATE, 0o666)
+			if err != nil {
+				return nil, err
+			}
+			bs, err := blockstore.OpenReadWriteFile(f, idsToCids(roots), o.carOpts()...)
+			if err != nil {
+				f.Close()
+				return nil, err
+			}
+			return &rwStore{bs, f}, nil
+		}
 		bs, err := blockstore.OpenReadWrite(path, idsToCids(roots), o.carOpts()...)
 		if err != nil {
 			return nil, err
 		}
-		return &rwStore{bs}, nil
+		return &rwStore{bs, nil}, nil
 	case "storage":
 		f, err := os.OpenFile(path, os.O_RDWR|os.O_CREATE, 0o644)
 		if err != nil {
